@@ -438,13 +438,19 @@ def u_random(seed, n=14, nauthors=2, param_bias=True):
     for i, (au, kind, ts, tags) in enumerate(plan, start=1):
         if tags is None:
             tags = []
+            def other_id():
+                # an event id is the hash of the event's own content: a request can never name itself
+                while True:
+                    t = rnd.randint(1, n + 1)
+                    if t != i:
+                        return t
             for _ in range(rnd.randint(1, 3)):
                 if rnd.random() < 0.5:
-                    tags.append(["e", ("ev", rnd.randint(1, n + 1))])
+                    tags.append(["e", ("ev", other_id())])
                 else:
                     cands = [(p[0], p[1], p[3]) for p in plan if p[3] is not None and (is_repl(p[1]) or is_param(p[1]))]
                     if not cands:
-                        tags.append(["e", ("ev", rnd.randint(1, n + 1))])
+                        tags.append(["e", ("ev", other_id())])
                         continue
                     cau, ckind, ctags = rnd.choice(cands)
                     if rnd.random() < 0.75:
